@@ -1,7 +1,7 @@
 //! C02B whole-archive spec decoder (implementation side).
 //!   dec <dir> <params k,s,m,pack,threads,qcap,ff>
 //!       create a real archive from the case directory (mk::create, exactly as ragc-cli drives the compressor), then print
-//!         OK CAT <catalogue> FILE <hex of the .agc bytes> ZT <frame hex>=<decompressed hex> ...
+//!         OK CAT <catalogue> ST <shape counters> FILE <hex of the .agc bytes> ZT <frame hex>=<decompressed hex> ...
 //!       catalogue = ragc's own extraction (Decompressor::list_samples / get_sample), per sample
 //!         S <sample name hex> <number of contigs> { <contig name hex>:<bases, one char 'A'+code per base, "-" if empty> }*
 //!       ZT = every zstd frame of the archive, decompressed here with the zstd crate (the model's only oracle):
@@ -10,6 +10,8 @@
 //!   mut <dir> <params> <kind> <seed>
 //!       same, but the archive is first re-serialised through ragc_common::Archive with one rule broken
 //!       (kinds below); ragc's reader may then fail:  ERR CAT - FILE .. ZT ..   (or PANIC ...)
+//! ST = counters for the evidence (reference parts plain / tuple-packed / raw, packs raw / compressed, groups with
+//! several packs, catalogue batches, reverse-complemented descriptors, largest symbol code).
 //! Everything after " FILE " is input for the extracted decoder (checks/c02b.py model_cases), not compared.
 #[path = "../mk.rs"]
 mod mk;
@@ -335,11 +337,59 @@ fn mutate(st: &mut Streams, kind: &str, rng: &mut Rng) -> bool {
     }
 }
 
+/// shape counters for the evidence (which rare forms this archive contains)
+fn stats(path: &str, st: &Streams) -> String {
+    let (mut ref_plain, mut ref_tuples, mut ref_raw, mut pack_raw, mut pack_comp) = (0, 0, 0, 0, 0);
+    let (mut lz_multi, mut raw_multi, mut batches) = (0, 0, 0);
+    for (name, parts) in st {
+        if name == "collection-contigs" {
+            batches = parts.len();
+        }
+        if !is_seg_stream(name) {
+            continue;
+        }
+        let isref = name.ends_with('r');
+        if !isref && parts.len() >= 2 {
+            if group_of(name) < 16 { raw_multi += 1 } else { lz_multi += 1 }
+        }
+        for (d, m) in parts {
+            match (isref, *m == 0) {
+                (true, true) => ref_raw += 1,
+                (true, false) => if d.last() == Some(&0) { ref_plain += 1 } else { ref_tuples += 1 },
+                (false, true) => pack_raw += 1,
+                (false, false) => pack_comp += 1,
+            }
+        }
+    }
+    let (mut rc, mut nseg, mut maxsym) = (0usize, 0usize, 0u8);
+    if let Ok(mut d) = Decompressor::open(path, DecompressorConfig { verbosity: 0 }) {
+        if let Ok(all) = d.get_all_segments() {
+            for (_, _, descs) in all.iter() {
+                nseg += descs.len();
+                rc += descs.iter().filter(|x| x.is_rev_comp).count();
+            }
+        }
+        for s in d.list_samples() {
+            if let Ok(cs) = d.get_sample(&s) {
+                for (_, seq) in cs {
+                    maxsym = maxsym.max(seq.iter().copied().max().unwrap_or(0));
+                }
+            }
+        }
+    }
+    format!("ref_plain={},ref_tuples={},ref_raw={},pack_raw={},pack_comp={},lz_multi={},raw_multi={},batches={},rc={},segs={},maxsym={},bytes={}",
+            ref_plain, ref_tuples, ref_raw, pack_raw, pack_comp, lz_multi, raw_multi, batches, rc, nseg, maxsym,
+            std::fs::metadata(path).map(|m| m.len()).unwrap_or(0))
+}
+
 fn report(path: &str) -> String {
     let bytes = std::fs::read(path).unwrap_or_default();
-    let zt = match read_streams(path) {
-        Ok(st) => ztable(&st),
-        Err(_) => String::new(),
+    let (zt, stx) = match read_streams(path) {
+        Ok(st) => {
+            let sx = std::panic::catch_unwind(|| stats(path, &st)).unwrap_or_else(|_| "-".to_string());
+            (ztable(&st), sx)
+        }
+        Err(_) => (String::new(), "-".to_string()),
     };
     let cat = std::panic::catch_unwind(|| catalogue(path));
     let head = match cat {
@@ -347,7 +397,7 @@ fn report(path: &str) -> String {
         Ok(Err(e)) => format!("ERR CAT {}", format!("{:#}", e).replace(' ', "_").replace('\n', "_")),
         Err(e) => format!("PANIC CAT {}", runner::panic_msg(&e).replace(' ', "_").replace('\n', "_")),
     };
-    format!("{} FILE {} ZT{}", head, hex(&bytes), zt)
+    format!("{} ST {} FILE {} ZT{}", head, stx, hex(&bytes), zt)
 }
 
 fn run(t: &[&str]) -> String {
